@@ -576,7 +576,8 @@ class Gen:
              "Resource": self.resource, "AssetInformation": self.asset_information,
              "DataSpecificationIEC61360": self.iec61360, "EmbeddedDataSpecification": self.eds,
              "ExternalReference": self.ext_ref, "ModelReference": self.model_ref,
-             "Key": lambda: self.key(True)}.get(clsname)
+             "Key": lambda: self.key(True),
+             "ValueReferencePair": lambda: model.ValueReferencePair(self.text(2000), self.ref())}.get(clsname)
         if f:
             return f()
         if clsname in SUBMODEL_ELEMENTS:
